@@ -25,6 +25,7 @@ RULE = (
     "thorough enumerates all behaviours for <=2 disposables; non-trivial = >=2 disposables with a failure or suspension, "
     "or a failing body with >=1 disposable; distinct = distinct case"
 )
+RULE += '; a disposable may yield exactly one state object that is falsy'
 LEVEL_TEXT = (
     "Fault enumeration: the disposable behaviour space is enumerated completely for <=2 disposables (thorough) and "
     "sampled for 3-4; for cancelled bodies every loop iteration is a crash point. The oracle is the doubles' call ledger: "
@@ -306,7 +307,8 @@ def _disp_strategy():
     exit_beh = st.one_of(beh, beh, beh, st.just({"b": "ok", "ret": True}))
     return st.builds(
         lambda e, y, x, a: {"enter": e, "yields": y, "exit": x, "as": a},
-        mostly_ok, st.sampled_from(YIELDS), exit_beh, st.sampled_from(["list", "list", "iter", "gen"]),
+        # also a single state whose instance is FALSY, yielded directly (not wrapped in a list)
+        mostly_ok, st.sampled_from([*YIELDS, {"type": "F", "v": 4}, {"type": "F", "v": 5}]), exit_beh, st.sampled_from(["list", "list", "iter", "gen"]),
     )  # fmt: skip
 
 
